@@ -803,14 +803,16 @@ impl<'a> Packet<'a> {
         let (auth, akey, apid, akind, aseq) = unsafe { (ct::AUTH, ct::AUTH_KEY, ct::AUTH_PID, ct::AUTH_KIND, ct::AUTH_SEQ) };
         // the sequence is read from the header before anything is authenticated (replay check first: dec_window_order);
         // for a forged datagram it is arbitrary - but then the AEAD rejects, so only the authentic one matters
-        let sequence = aseq;
+        let is_authentic = auth && *key == akey && protocol_id == apid && ty == akind && ct::sequence_bytes(aseq) == seq_len;
+        // the header sequence of any other datagram is its sender's choice (FORGED_SEQ: arbitrary, may repeat a seen one)
+        let sequence = if is_authentic { aseq } else { unsafe { ct::FORGED_SEQ } };
         if let Some(ref rp) = replay_protection {
-            if auth && ty == akind && protected && rp.already_received(sequence) {
+            if protected && rp.already_received(sequence) {
                 return Err(NetcodeError::DuplicatedSequence);
             }
         }
         // ideal AEAD: only THE datagram sealed by the key holder verifies - under its key, protocol id, kind, sequence
-        if !(auth && *key == akey && protocol_id == apid && ty == akind && ct::sequence_bytes(aseq) == seq_len) {
+        if !is_authentic {
             return Err(NetcodeError::CryptoError);
         }
         unsafe {
